@@ -30,6 +30,30 @@ CLAIMED = {
             "Machine-checked proof that each time-step kernel equals CFL*dx/(|u|+c) on prim2cons of any admissible state, is positive and bilinear in (CFL, dx); spectral-radius link through explicit eigenpairs of the closed-form Jacobians (partial: matrices not proved to be the derivative; the oracle checks them numerically against the model's own consistent flux). Driver use of min / local array checked on the implementation.",
             "Trusted: Lean kernel + standard axioms; transcription of the timestep kernels (validated by L-dt); sampling for the driver clause.",
             "DESIGN.md 4/C18"),
+    'C01': ("Lean 4 theorems (telescoping balance for any mesh/flux array, periodic and wall invariance for arbitrary kernels, integrator conservation for any table) + exact-Q correspondence of every pipeline stage",
+            "Machine-checked proof on the 1D pipeline model: sum(vol*res) = F_0 - F_n + integrated sources for any faces and flux array; periodic ends carry equal fluxes for arbitrary cons2prim/reconstruction/flux; mass/energy (depth) fluxes vanish at slip walls for every registered Euler/shallow-water flux; every explicit integrator (any Butcher table / low-storage list) conserves linear functionals killed by the operator. Partial: 2D and implicit clauses are explored by the sweep only.",
+            "Trusted: Lean kernel + standard axioms; transcription of fvm1d and the integrator loops (validated by L-rhs1d over all stages and L-int); sampling.",
+            "DESIGN.md 4/C01"),
+    'C03': ("Lean 4 theorems (zero residual of a uniform state for any mesh/scheme/pointwise flux and any boundary kernel fixing the state; C16 compatibility theorems; explicit integrators fix zeros) + correspondence",
+            "Machine-checked proof that a uniform state has zero residual with periodic, dirichlet and matching Euler inlet/outlet conditions (the boundary kernels are proved to return the interior state), that nozzle sources vanish at rest, and that every explicit step loop (scalar or local time step) maps a zero of the operator to itself. Partial: implicit family and 2D pipeline by sweep.",
+            "Trusted: Lean kernel + standard axioms; transcriptions validated by L-rhs1d, L-bcker, L-int; sampling.",
+            "DESIGN.md 4/C03"),
+    'C11': ("Lean 4 theorems (constant/linear exactness on any mesh; refinement of the periodic uniform pipeline to a cyclic pipeline; circulant kappa stencil for all data and n>=1) + generated kappa constants + correspondence",
+            "Machine-checked proof of constant and linear exactness of every kappa scheme and of MUSCL with minmod/superbee on arbitrary meshes, of extrapol1 returning adjacent cell values, and that the periodic convection operator is the circulant kappa stencil for all data, all n>=1 and both signs, with kappa of the named classes regenerated from the source. Partial: 2D directional stencils and smooth-limiter exactness (bounded by C12) by sweep.",
+            "Trusted: Lean kernel + standard axioms; gen_tables.py; transcription of grad/reconstruction (validated by L-rhs1d); sampling.",
+            "DESIGN.md 4/C11"),
+    'C14': ("Lean 4 refinement theorem (periodic uniform 1D pipeline = cyclic seam-free pipeline for every n>=1) and shift-equivariance corollaries + correspondence",
+            "Machine-checked proof that on a uniform periodic mesh the 1D residual commutes with every cyclic shift, for any reconstruction, cons2prim and pointwise flux, including n = 1,2,3. Partial: 2D shifts and the lift through integrators are checked bitwise/to round-off on the implementation by the sweep.",
+            "Trusted: Lean kernel + standard axioms; transcription of fvm1d (validated by L-rhs1d); sampling.",
+            "DESIGN.md 4/C14"),
+    'C19': ("Lean 4 theorems on add_source, nozzle source composition and geometric term + correspondence (L-rhs1d with nozzle sources, L-noz)",
+            "Machine-checked proof that the operator with sources is the operator without plus source_k on equation k (None contributing nothing), that the nozzle composition adds user and geometric sources, that the geometric sources are -(1/A dA/dx) times the mass, momentum-convective and enthalpy fluxes, and vanish for a constant section. 2D add_source by sweep.",
+            "Trusted: Lean kernel + standard axioms; transcription (validated by L-rhs1d, L-noz); python closures of user sources are modelled as arbitrary functions.",
+            "DESIGN.md 4/C19"),
+    'C20': ("Lean 4 theorems on the mesh constructors (uniform, morphed, refined with exact whole-cell ratio) + correspondence L-mesh1d",
+            "Machine-checked proof of face count/monotonicity/span, midpoint centres, positive volumes summing to the length, exact weighted average of constants, and the refined-mesh zone structure and size ratio under the whole-number-of-cells hypothesis. 2D index tables: sweep (exhaustive comparison against the flattening maps) until the 2D model lands.",
+            "Trusted: Lean kernel + standard axioms; np.linspace modelled as i*(L/n); int() floor modelled by an explicit nc1 with hypothesis; sampling.",
+            "DESIGN.md 4/C20"),
 }
 
 NOT_YET = {}
